@@ -39,9 +39,9 @@ BUILD_CONFIGS = {
 # (BITS, LIMBS) configurations for which the driver evaluates Uint's scalar
 # associated constants.  Superset of the quick and thorough sets.
 Q_QUICK = [(0, 0), (1, 1), (2, 1), (3, 1), (7, 1), (8, 1), (60, 1), (63, 1), (64, 1), (65, 2),
-           (120, 2), (127, 2), (128, 2), (129, 3), (192, 3), (256, 4), (320, 5)]
+           (120, 2), (127, 2), (128, 2), (129, 3), (192, 3), (256, 4), (320, 5), (512, 8)]
 # (320, 5): the first width class above 256 bits -- width-specific literals such as `32 - leading_zeros / 8` (F16) are
-# only wrong there
+# only wrong there; (512, 8): the first evaluated width above 55 bytes, where length-prefixed codecs (RLP) change form
 
 
 def _nl(b):
